@@ -228,7 +228,7 @@ type histProg struct {
 }
 
 func genHistory(t *tape.Tape, uniq string) histProg {
-	switch t.Pick(3, 1, 3, 3, 1, 2, 2, 2, 1, 2, 1, 3, 3) {
+	switch t.Pick(3, 1, 3, 3, 1, 2, 2, 2, 1, 2, 1, 3, 3, 2) {
 	case 0:
 		return histProg{kind: "fail-at-step", faultAt: 1 + t.Intn(4),
 			src: "hx1 := S(1)\nhx2 := [S(2), hx1]\nhf := {|a| S(3); a}\nhf(S(4))\n\"done\".p\n"}
@@ -260,6 +260,10 @@ func genHistory(t *tape.Tape, uniq string) histProg {
 	case 9:
 		return histProg{kind: "raise-and-defer", faultAt: 1 + t.Intn(2),
 			src: "hd := {|a|\n  defer \"cleanup\".p\n  S(1)\n  raise Err.new(\"hist boom\") if a\n  S(2)\n}\nhd(true)\n"}
+	case 13:
+		// re-binding the names of built-ins and of Kernel props in the program's own scope
+		return histProg{kind: "rebind-builtin-names", faultAt: -1,
+			src: "Int := 5\nArr := nil\nStr := {len: 99}\nassertEq := {|a, b| \"hijacked\"}\nassert := 1\ntrue := 0\nnil := 1\nKernel := 1\nErr := ValueErr\n[Int, assertEq(1, 2)].p\n"}
 	case 12:
 		// built-in prototypes used as ordinary operands (expansion, unpacking, chains)
 		return histProg{kind: "builtin-as-operand", faultAt: -1,
@@ -310,6 +314,9 @@ var probes = []probeProg{
 	{"callee-name", "S(1)\n", ""},
 	{"try", "5.try.{|n| n / 0}.A.p\n5.try.{|n| hx1}.err.p\n", ""},
 	{"evalenv", "\"a := 1\".evalEnv.p\n\"px\".eval\n", ""},
+	{"builtin-names-in-use", "[Int.keys.len > 0, [1].len, \"ab\".len, assertEq(1, 1), Kernel.keys.len > 0, true, nil, Err.new(\"e\").type == Err].p\nassert(false)\n", ""},
+	{"syntax-error", "ok := 1\nok +* 2\n", ""},
+	{"syntax-error2", "{|x| x\n", ""},
 	{"same-literal-func", "step := 10\ninc := {|x, by: step| x + by}\ninc(1).p\n\ndescribe := {|o| o.name.uc}\ndescribe({title: \"b\"})\n", ""},
 	{"same-literal-iter", "base := 5\ncounter := <{|i, k: base| yield i + k if i < 3; recur(i + 1)}>\ncounter.new(0).A.p\nobj := {val: base, get: m{|d: base| .val + d}}\nobj.get.p\nobj.nosuch\n", ""},
 	{"same-literal-eval", "n := 40\n\"n + 1\".eval.p\nhalf := {|x| x / 0}\n\nhalf(3)\n", ""},
